@@ -1635,3 +1635,102 @@ Proof.
   - cbn [app]. specialize (T1 None). cbn [length] in T1. change (N.of_nat 0) with 0 in T1. rewrite N.add_0_r in T1.
     exact T1.
 Qed.
+
+(* ---- one CIE tile under CfiRd.parse_cfi_entry ---- *)
+
+Lemma asz_ok_rd a : asz_ok a -> CfiRdBase.asz_ok a.
+Proof. intros H. exact H. Qed.
+
+Lemma idsz_of_cfg eh be asz fmt64 : N.of_nat (RdE.idsz_of (rd_cfg eh be asz) fmt64) = id_size_of eh fmt64.
+Proof. unfold RdE.idsz_of, CfiRd.cie_id_is_u64, id_size_of, rd_cfg. cbn [CfiRd.sc_eh]. destruct eh, fmt64; reflexivity. Qed.
+
+Lemma tail_off_cfg eh be asz fmt64 pos :
+  RdE.tail_off (rd_cfg eh be asz) fmt64 pos = pos + ilen_size fmt64 + id_size_of eh fmt64.
+Proof. unfold RdE.tail_off. rewrite idsz_of_cfg. destruct fmt64; reflexivity. Qed.
+
+Lemma cie_tile_read dbg be eh pos (c : CfiWr.cie) bs :
+  cie_wf c = true -> pos + len bs + 2 < 18446744073709551616 ->
+  cie_write dbg be eh pos c = Ok bs ->
+  (forall e, c_lsda_enc c = Some e -> enc_usable e) ->
+  (negb (c_fde_enc c =? 0) = true -> enc_usable (c_fde_enc c)) ->
+  let cfg := rd_cfg eh be (c_asize c) in
+  exists insns pad,
+    let cr := cie_rec_of c (cie_data_pos eh be pos c) (insns ++ pad) in
+    write_insns dbg (c_daf c) (c_insns c) = Ok insns /\ all_nop pad = true /\ len pad < c_asize c /\
+    bs = CfiSpec.enc_cie (RdE.sp_of cfg) cr /\
+    RdE.wf_cie cfg cr /\ RdE.body_fits (c_fmt64 c) (RdE.cie_body cfg cr) /\
+    RdE.exp_aug cfg cr (RdE.cie_dpos cfg cr (RdE.tail_off cfg (c_fmt64 c) pos)) = Some (rd_aug_of c) /\
+    forall dbg' rest,
+      CfiRd.parse_cfi_entry dbg' cfg (CfiRd.mkrd pos (bs ++ rest)) =
+      Ok (Some (CfiRd.ICie (RdE.exp_cie cfg cr pos (CfiSpec.blen (RdE.cie_body cfg cr))
+                                       (RdE.tail_off cfg (c_fmt64 c) pos) (rd_aug_of c))),
+          CfiRd.mkrd (pos + len bs) rest).
+Proof.
+  intros Hwf Hfit2 H HL HR cfg.
+  assert (Hfit : pos + len bs < 18446744073709551616) by lia.
+  pose proof (cie_write_ok_asz _ _ _ _ _ _ H) as Hasz.
+  destruct (cie_write_enc dbg be eh pos c bs Hwf Hfit H)
+    as (insns & pad & Hins & Hnop & Hpad & Hbs & Hbf & Hsmall & Hver & Hra1 & Hpers).
+  exists insns, pad. cbv zeta.
+  set (cr := cie_rec_of c (cie_data_pos eh be pos c) (insns ++ pad)) in *.
+  split; [exact Hins|]. split; [exact Hnop|]. split; [exact Hpad|].
+  assert (Hsp : RdE.sp_of cfg = cie_sp eh be c) by reflexivity.
+  split; [rewrite Hsp; exact Hbs|].
+  pose proof Hwf as Hwf0. unfold cie_wf in Hwf. split_wf Hwf.
+  rename W into Hinsns, W0 into Hfe, W1 into Hle, W2 into Hpe, W3 into Hra, W4 into Hdaf, W5 into Hcaf, W6 into Hasz8.
+  apply is_u8_iff in Hcaf. apply is_i8_iff in Hdaf. apply is_u16_iff in Hra.
+  assert (Hwfc : RdE.wf_cie cfg cr).
+  { constructor.
+    - exact Hver.
+    - exact Hasz.
+    - unfold cr. rewrite Hsp, cie_asz_sp. exact Hasz.
+    - change (CfiSpec.c_caf cr) with (c_caf c). change (2 ^ 64) with 18446744073709551616. lia.
+    - change (CfiSpec.c_daf cr) with (c_daf c). change (2 ^ 63)%Z with 9223372036854775808%Z. lia.
+    - change (CfiSpec.c_rar cr) with (c_ra c). change (CfiSpec.c_ver cr) with (c_version c).
+      destruct (c_version c =? 1) eqn:E; [apply Hra1; lia|lia].
+    - unfold cr at 1. rewrite Hsp, cie_asz_sp. change (CfiRd.sc_be cfg) with be.
+      change (CfiSpec.c_items cr) with (aug_items_of c (cie_data_pos eh be pos c)).
+      change (2 ^ 64) with 18446744073709551616. lia. }
+  split; [exact Hwfc|].
+  assert (Hbf' : RdE.body_fits (c_fmt64 c) (RdE.cie_body cfg cr)).
+  { unfold RdE.body_fits. exact Hbf. }
+  split; [exact Hbf'|].
+  assert (Hdpos : RdE.cie_dpos cfg cr (RdE.tail_off cfg (c_fmt64 c) pos) = cie_data_pos eh be pos c).
+  { unfold RdE.cie_dpos, cr. rewrite Hsp, cie_asz_sp. change (CfiRd.sc_be cfg) with be.
+    cbn [cie_rec_of CfiSpec.c_items].
+    rewrite enc_uleb_small by exact Hsmall. unfold cfg. rewrite tail_off_cfg.
+    unfold cie_data_pos. rewrite (cie_pre_indep eh be c _ _ 0 []). reflexivity. }
+  assert (Haug : RdE.exp_aug cfg cr (RdE.cie_dpos cfg cr (RdE.tail_off cfg (c_fmt64 c) pos)) = Some (rd_aug_of c)).
+  { rewrite Hdpos. unfold RdE.exp_aug, rd_aug_of. unfold cr. rewrite Hsp, cie_asz_sp.
+    cbn [cie_rec_of CfiSpec.c_z CfiSpec.c_items]. change (CfiRd.sc_be cfg) with be.
+    change (CfiRd.sc_bases cfg) with (CfiRd.mksb (Some 0) None None).
+    destruct (has_augmentation c) eqn:Ea.
+    - rewrite (aug_fold_written be c (cie_data_pos eh be pos c) Hasz); [reflexivity| |exact HL|exact HR|].
+      + (* the data lies inside the entry *)
+        assert (Hlenbs : len bs = ilen_size (c_fmt64 c) + id_size_of eh (c_fmt64 c)
+                                  + CfiRd.nlen (RdE.cie_pre (cie_sp eh be c) cr)
+                                  + CfiRd.nlen (RdE.cie_augpart (cie_sp eh be c) cr) + CfiRd.nlen (CfiSpec.c_instr cr)).
+        { rewrite Hbs. unfold CfiSpec.enc_cie. cbv zeta. change len with CfiRd.nlen.
+          rewrite CfiRdBase.nlen_app, RdE.nlen_initial_length, CfiRdBase.nlen_app, RdE.cie_tail_split, !CfiRdBase.nlen_app.
+          change (CfiSpec.c_fmt64 cr) with (c_fmt64 c).
+          assert (Hid : CfiRd.nlen (CfiSpec.cie_id (cie_sp eh be c) (c_fmt64 c)) = id_size_of eh (c_fmt64 c)).
+          { unfold CfiSpec.cie_id, id_size_of, cie_sp, CfiRd.nlen. cbn [CfiSpec.s_eh CfiSpec.s_be].
+            destruct eh; [|destruct (c_fmt64 c)]; rewrite CfiRdBase.un_bytes_length; reflexivity. }
+          rewrite Hid. destruct (c_fmt64 c); cbn [CfiSpec.len_field_size ilen_size]; lia. }
+        assert (Hap : 1 <= CfiRd.nlen (RdE.cie_augpart (cie_sp eh be c) cr)).
+        { unfold RdE.cie_augpart, cr. cbv zeta. rewrite cie_asz_sp. cbn [cie_rec_of CfiSpec.c_z CfiSpec.c_items]. rewrite Ea.
+          change (CfiSpec.s_be (cie_sp eh be c)) with be.
+          rewrite enc_uleb_small by exact Hsmall. rewrite CfiRdBase.nlen_app. unfold CfiRd.nlen at 1. cbn [length]. lia. }
+        unfold cie_data_pos. rewrite (cie_pre_indep eh be c 0 [] (cie_data_pos eh be pos c) (insns ++ pad)). fold cr. lia.
+      + destruct (c_pers c) as [[e a]|]; [|exact I].
+        destruct Hpers as (v & -> & Happ & Hfv & Hfitv). exists v. split; [reflexivity|].
+        apply andb_true_iff in Hpe. destruct Hpe as [He Ha]. apply is_u8_iff in He. cbn [addr_wf] in Ha.
+        split; [lia|]. split; [split; [exact He|split; assumption]|exact Hfitv].
+    - destruct (no_aug_fields c Ea) as (E1 & E2 & E3 & E4).
+      unfold aug_items_of, pers_items, lsda_items. rewrite E1, E2, E3, E4. reflexivity. }
+  split; [exact Haug|].
+  intros dbg' rest.
+  rewrite Hbs at 1. rewrite <- Hsp.
+  rewrite (RdE.parse_cfi_entry_cie dbg' cfg cr pos rest (rd_aug_of c) Hwfc Hbf' Haug).
+  do 3 f_equal. rewrite Hsp, <- Hbs. reflexivity.
+Qed.
